@@ -78,7 +78,12 @@ type Lowerer struct {
 	assumed map[string]bool
 	afterCall []func()
 	acqPoints []acqPoint
+	itPoints  []acqPoint
 	initializing map[string]bool // objects being constructed (composite literal): not yet shared
+	topEnv   map[string]envEntry
+	topChain []*Contract
+	topEnss  []*Clause
+	topCt    *Contract
 	specPos token.Pos // when set, spec identifiers resolve in the scope at this source position
 }
 
@@ -309,6 +314,7 @@ type place struct {
 	typ   types.Type // type of the location
 	ktyp  types.Type
 	mtyp  *types.Map
+	term  *Term
 }
 
 const (
@@ -319,17 +325,20 @@ const (
 	pMap
 	pDeref // *p for non-struct pointee
 	pBlank
+	pTerm // a value (spec expressions only)
 )
 
 func (l *Lowerer) fieldHeapName(owner, path string) string { return "F." + owner + "." + path }
 
 func (l *Lowerer) load(pl *place) *Term {
 	switch pl.kind {
+	case pTerm:
+		return pl.term
 	case pLocal:
 		s := l.p.sortOf(pl.typ)
 		l.f.declare(pl.name, s)
 		n := pl.name
-		if l.oldRename != nil {
+		if l.oldRename != nil && !strings.HasPrefix(pl.name, "$t") {
 			n = l.oldRename(pl.name)
 			l.f.declare(n, s)
 		}
@@ -397,7 +406,7 @@ func (l *Lowerer) guardedAccess(pl *place) {
 			continue
 		}
 		for _, f := range fields {
-			if f == first {
+			if f == first || f == "contents("+first+")" && false {
 				lockField := key[strings.LastIndex(key, ".")+1:]
 				name := "addr." + owner + "." + lockField
 				l.p.reg.Fun(name, []string{"Int"}, "Int")
@@ -506,10 +515,22 @@ func (l *Lowerer) store(pl *place, v *Term) {
 	}
 }
 
+// mapVarsPlain declares the heap variables of a map type and returns their (current-state) names.
+func (l *Lowerer) mapVarsPlain(mt *types.Map) (dom, val, card string) {
+	saved := l.oldRename
+	l.oldRename = nil
+	d, v, c := l.mapVars(mt)
+	l.oldRename = saved
+	return d.Name, v.Name, c.Name
+}
+
 func (l *Lowerer) mapVars(mt *types.Map) (dom, val, card *Term) {
 	ks := l.p.sortOf(mt.Key())
 	vs := l.p.sortOf(mt.Elem())
-	base := "M." + sortIdent(ks) + "." + sortIdent(vs)
+	// one heap variable family per Go map type: maps of different types are different objects
+	ts := types.TypeString(mt, func(pk *types.Package) string { return "" })
+	ts = strings.NewReplacer("[", "_", "]", "_", "*", "p", " ", "", "{", "_", "}", "_", ";", "_", ".", "_", "(", "_", ")", "_", ",", "_").Replace(ts)
+	base := "M." + ts
 	dom = l.heapVar(base+".dom", arraySort(ks, "Bool"))
 	val = l.heapVar(base+".val", arraySort(ks, vs))
 	card = l.heapVar(base+".card", "Int")
@@ -998,7 +1019,7 @@ func (l *Lowerer) placeOfSelector(x *ast.SelectorExpr) *place {
 		}
 	}
 	if basePl == nil {
-		if inner, ok := ast.Unparen(x.X).(*ast.IndexExpr); ok {
+		if inner, ok := ast.Unparen(x.X).(*ast.IndexExpr); ok && !l.spec {
 			basePl = l.placeOf(inner)
 			baseTyp = basePl.typ
 		} else if id, ok := ast.Unparen(x.X).(*ast.Ident); ok {
@@ -1045,10 +1066,15 @@ func (l *Lowerer) placeOfSelector(x *ast.SelectorExpr) *place {
 	}
 	// value struct base
 	if basePl == nil {
-		// rvalue struct: wrap in a temp local
-		tn := l.tmp(baseT.Sort)
-		l.assign(tn, baseT.Sort, baseT)
-		basePl = &place{kind: pLocal, name: tn, typ: baseTyp}
+		if l.spec {
+			// a struct value inside a spec: no temporaries (the term may mention bound variables)
+			basePl = &place{kind: pTerm, term: baseT, typ: baseTyp}
+		} else {
+			// rvalue struct: wrap in a temp local
+			tn := l.tmp(baseT.Sort)
+			l.assign(tn, baseT.Sort, baseT)
+			basePl = &place{kind: pLocal, name: tn, typ: baseTyp}
+		}
 	}
 	if ghostT != nil {
 		panic("ghost field on value struct")
